@@ -21,6 +21,7 @@ RULE = (
     "transport tags every write/read with the current task; virtual time makes the interleaving a pure function of the delays. "
     "Invariants over the recorded history: between a caller's first transmission and the return of its request() no other task "
     "transmits; every value returned to a caller carries its own DID; all callers finish (no deadlock) after a cancellation or "
+    "A third party may stop the worker, ping and restart it (also through wait_for_ecu()); reply scripts include pending-then-silence; after everybody has finished the worker must still transmit. "
     "failure; the worker never dies. Non-trivial: >= 2 exchanges that would overlap without the lock (a caller arrives while "
     "another one's exchange is open). Distinct by schedule."
 )
